@@ -831,6 +831,11 @@ func (f *frame) runFrom(b *ssa.BasicBlock) Value {
 			switch x := in.(type) {
 			case *ssa.Alloc:
 				o := m.newObj(zero(x.Type().(*types.Pointer).Elem()))
+				// state of the environment models of the intrinsics package (e.g. the cancel context) stands for
+				// library-internal, internally synchronised state: not part of the footprints
+				if pk := f.fn.Package(); pk != nil && pk.Pkg.Path() == m.P.rtPath {
+					o.ghost = true
+				}
 				f.env[x] = Ptr{obj: o}
 			case *ssa.Store:
 				p, ok := f.get(x.Addr).(Ptr)
